@@ -1,4 +1,4 @@
-\* exhaustive, property version (fee first, victims without dependants), small universe, capacity 2
+\* exhaustive with reorgs (depth 1, blocks of <= 1 tx), 3 steps
 SPECIFICATION MCSpec
 CONSTANTS
   Atoms <- AtomsSmall
@@ -15,9 +15,9 @@ CONSTANTS
   EvictMode = "nodeps"
   ShortReorg = FALSE
   MaxBlocks = 2
-  MaxSteps = 4
+  MaxSteps = 3
   MaxBlockTxs = 1
-  MaxReorgDepth = 0
+  MaxReorgDepth = 1
   SimProfile = "mixed"
 VIEW View
 INVARIANTS PoolJointlyValid StemJointlyValid PoolMatureUnlocked NoUnderpaid NoOverweight AdmitMatureUnlocked MineableAccepted
